@@ -233,25 +233,26 @@ func (p Poly) asAtom() string {
 // ---------------------------------------------------------------------------------------------
 
 type Normer struct {
-	Root       *ssa.Function // the function whose parameters carry the role names
-	resolving  map[*ssa.Parameter]bool
-	curFrom    *ssa.BasicBlock
-	phiDepth   int
-	NoInline   map[string]bool       // callee names kept as uninterpreted calls
-	AtomAlias  map[string]string     // atom string -> role (e.g. "invoke:Bounds(bc)" -> "B")
-	Ctx        []ssa.CallInstruction // calling context used to resolve helper parameters
-	P          *Prog
-	Bind       map[ssa.Value]string // role names for values (parameters, ...)
-	PhiChoice  map[*ssa.Phi]int     // select one incoming edge of a phi (decision-table extraction)
-	Opaque     bool                 // set when the result contains an atom outside the fragment
-	OpaqueWhy  []string
-	env        []map[ssa.Value]Poly
-	depth      int
-	MaxInline  int
-	memo       map[ssa.Value]Poly
-	sliceLen   map[string]ssa.Value
-	lb         *lbCtx
-	FoldTables bool // reads of immutable package tables at constant positions become constants
+	StripNarrow string        // callCases: a final conversion of a helper result to this integer type is dropped
+	Root        *ssa.Function // the function whose parameters carry the role names
+	resolving   map[*ssa.Parameter]bool
+	curFrom     *ssa.BasicBlock
+	phiDepth    int
+	NoInline    map[string]bool       // callee names kept as uninterpreted calls
+	AtomAlias   map[string]string     // atom string -> role (e.g. "invoke:Bounds(bc)" -> "B")
+	Ctx         []ssa.CallInstruction // calling context used to resolve helper parameters
+	P           *Prog
+	Bind        map[ssa.Value]string // role names for values (parameters, ...)
+	PhiChoice   map[*ssa.Phi]int     // select one incoming edge of a phi (decision-table extraction)
+	Opaque      bool                 // set when the result contains an atom outside the fragment
+	OpaqueWhy   []string
+	env         []map[ssa.Value]Poly
+	depth       int
+	MaxInline   int
+	memo        map[ssa.Value]Poly
+	sliceLen    map[string]ssa.Value
+	lb          *lbCtx
+	FoldTables  bool // reads of immutable package tables at constant positions become constants
 }
 
 func NewNormer(p *Prog) *Normer {
@@ -1298,9 +1299,35 @@ func (n *Normer) fieldOf(v ssa.Value, f int, depth int) (Poly, bool) {
 		if x.Op != token.MUL {
 			return nil, false
 		}
-		a, ok := x.X.(*ssa.Alloc)
-		if !ok {
+		a, apath, ok := rootAlloc(x.X) // also a local of the enclosing function captured by this closure
+		if !ok || len(apath) != 0 {
 			return nil, false
+		}
+		dominatesInstr := func(st *ssa.Store, ld ssa.Instruction) bool {
+			if st.Parent() == ld.Parent() {
+				return dominatesInstr(st, ld)
+			}
+			// written in the enclosing function before the closure that reads it is created
+			if st.Parent() != a.Parent() {
+				return false
+			}
+			cl := ld.Parent()
+			for cl != nil && cl.Parent() != a.Parent() {
+				cl = cl.Parent()
+			}
+			if cl == nil {
+				return false
+			}
+			okAll, any := true, false
+			eachInstr(a.Parent(), func(b *ssa.BasicBlock, ins ssa.Instruction) {
+				if mc, isMC := ins.(*ssa.MakeClosure); isMC && mc.Fn == ssa.Value(cl) {
+					any = true
+					if !dominatesInstr(st, mc) {
+						okAll = false
+					}
+				}
+			})
+			return okAll && any
 		}
 		stores, paths, _ := storesTo(a)
 		var field, whole []*ssa.Store
